@@ -387,7 +387,7 @@ func (f Index) Iterate(fn IndexIterFunc, options *IterateOptions) (err error) {
 	if options.Reverse {
 		itSeekerFn = it.Prev
 	}
-	if options.SkipStartFromItem && bytes.Equal(startKey, it.Key()) {
+	if options.SkipStartFromItem && options.StartFrom != nil && bytes.Equal(startKey, it.Key()) {
 		// skip the start from Item if it is the first key
 		// and it is explicitly configured to skip it
 		ok = itSeekerFn()
